@@ -47,10 +47,10 @@ class _AddressList(Writeable):
 
     @property
     def _value(self) -> Writeable:
-        if self.headers:
-            addresses: list[Address] = []
-            for header in self.headers:
-                addresses.extend(header.addresses)
+        addresses: list[Address] = []
+        for header in self.headers:
+            addresses.extend(header.addresses)
+        if addresses:
             return List([self._parse(address)
                          for address in addresses])
         else:
